@@ -709,6 +709,22 @@ def c12(rng, count, exhaustive_len=3):
         if rng.random() < 0.05: argv.append(rng.choice(["--fallback-oob", "--fallback-oob=", "-f", "--bogus", "-x", "-d"]))
         rng.shuffle(argv) if rng.random() < 0.1 else None
         out.append(Case(argv, rng.choice(stdin_pool)))
+    # the same kind of argument vectors in pico-args' other spellings, with no value excluded (values that
+    # start with '-', hold '=' or quotes, empty values): compared with the model of pico-args
+    n_sp = max(200, count // 6)
+    k = 0
+    while k < n_sp:
+        mode = rng.choice(modes)
+        argv = [mode, rng.choice(["1", "2:", "-1", "1,2", "{1}x", "1=", "=x", "-", "1:2=a=b"])]
+        if rng.random() < 0.7: argv += ["-d", rng.choice(["-", "--", "=", "'", '"', "'-'", '"a"', "", "é", "a=b", "-d"])]
+        for f in ["-g", "-p", "-s", "-z", "-m", "-j"]:
+            if rng.random() < 0.25: argv.append(f)
+        if rng.random() < 0.3: argv += ["-r", rng.choice(["/", "-", "=", "'x'", ""])]
+        if rng.random() < 0.3: argv += ["-t", rng.choice(["l", "r", "b", "L", "x"])]
+        if rng.random() < 0.2: argv += ["--fallback-oob", rng.choice(["x", "-", "=y", "'q'", ""])]
+        if rng.random() < 0.2: argv += ["-M", rng.choice(["1", "'1'", "+1", "=1"])]
+        out.append(Case(_respell(rng, argv), rng.choice(stdin_pool)))
+        k += 1
     return out
 
 
@@ -1027,4 +1043,79 @@ def c06_big(rng):
                 if exp is None:
                     continue
                 out.append(Case(["-b", b], data, tags={"nomodel": True, "expect": exp}))
+    return out
+
+
+# ---------------------------------------------------------------- spellings of the same argument vector
+LONG = {"-f": "--fields", "-c": "--characters", "-b": "--bytes", "-l": "--lines", "-d": "--delimiter",
+        "-g": "--greedy-delimiter", "-p": "--compress-delimiter", "-s": "--only-delimited", "-z": "--zero-terminated",
+        "-m": "--complement", "-j": "--join", "-r": "--replace-delimiter", "-t": "--trim", "-e": "--regex",
+        "-M": "--fixed-memory"}
+TAKES_VALUE = {"-f", "-c", "-b", "-l", "-d", "-r", "-t", "-e", "-M", "--fallback-oob"}
+
+
+def _respell(rng, argv):
+    """another spelling of the same options (pico-args: long names, '=' separator, attached short values,
+    combined short flags); argv is a list of str"""
+    toks, i = [], 0
+    while i < len(argv):
+        a = argv[i]
+        if a in TAKES_VALUE and i + 1 < len(argv):
+            toks.append((a, argv[i + 1])); i += 2
+        else:
+            toks.append((a, None)); i += 1
+    if rng.random() < 0.5:
+        rng.shuffle(toks)
+    out, flags = [], []
+    def flush():
+        if flags:
+            out.append("-" + "".join(f[1] for f in flags)) if len(flags) > 1 else out.append(flags[0])
+            flags.clear()
+    for k, v in toks:
+        if v is None:
+            if k in LONG and len(k) == 2 and rng.random() < 0.4:
+                flags.append(k)             # candidate for -gp style combination
+                if rng.random() < 0.4: flush()
+                continue
+            flush()
+            out.append(LONG[k] if (k in LONG and rng.random() < 0.5) else k)
+            continue
+        flush()
+        name = LONG[k] if (k in LONG and rng.random() < 0.5) else k
+        form = rng.choice(["space", "space", "eq", "attached" if len(name) == 2 else "eq"])
+        if form == "space" or v == "":
+            out += [name, v]
+        elif form == "eq":
+            out.append(name + "=" + v)
+        else:
+            out.append(name + v)
+    flush()
+    return out
+
+
+def argv_spellings(rng, count):
+    """pairs (argv, a respelling of it) on the same input; both also go through the model"""
+    out = []
+    g = 3 * 10 ** 6
+    pools = [lambda: fields(rng, 1), lambda: fast(rng, 1), lambda: lines(rng, 1), lambda: chars(rng, 1),
+             lambda: jsonf(rng, 1), lambda: regex(rng, 1), lambda: bytes_mode(rng, 1)]
+    while len(out) < count:
+        base = rng.choice(pools)()
+        if not base:
+            continue
+        c = base[0]
+        try:
+            argv = [a.decode("utf-8") for a in c.argv]
+        except UnicodeDecodeError:
+            continue
+        if c.entry != "main" or c.seg or c.extra:
+            continue
+        # values that start with '-' or hold '=' or quotes make some spellings mean something else
+        # (that is pico-args' documented behaviour, not a property of tuc): keep the space form for them
+        vals = [argv[i + 1] for i in range(len(argv) - 1) if argv[i] in TAKES_VALUE]
+        if any(v.startswith("-") or v[:1] in ("=", "'", '"') for v in vals):
+            continue
+        g += 1
+        out.append(Case(argv, c.stdin, tags={"grp": g, "role": "spelling1"}))
+        out.append(Case(_respell(rng, argv), c.stdin, tags={"grp": g, "role": "spelling2"}))
     return out
